@@ -5,8 +5,9 @@ import re
 import common
 import coq_cases
 import flowgen
+import sig_common
 
-DEP_FILES = ["ValidateModel.v", "ValidateProofs.v", "ValidateWalk.v"]
+DEP_FILES = ["ValidateModel.v", "ValidateProofs.v", "ValidateWalk.v", "SignatureModel.v", "SignatureProofs.v"]
 
 CLASSES = [
     ("DupParam", r"already provided to cff\.Params"),
@@ -130,6 +131,11 @@ def run(chk):
                            "flow": f.model_line(), "cff_messages": permsgs.get(i, []), "model": mv})
     if class_diff is not None and not chk.violations:
         chk.fail_no_input(*class_diff)
+    # the exit status of the run over all files: non-zero exactly when some file was rejected
+    nrej = sum(1 for i in range(len(flows)) if not os.path.exists(os.path.join(pkg, "f%04d_gen.go" % i)))
+    if not chk.violations and (rc != 0) != (nrej > 0):
+        chk.violate("cff exited with status %d although %d of the %d files of the package were rejected" % (rc, nrej, len(flows)),
+                    {"exit_status": rc, "rejected_files": nrej, "output_tail": out[-1500:]})
     chk.cov["traces_validated_against_impl"] = len(flows)
     chk.sample({"flow": flows[0].model_line(), "label": flows[0].label, "model": model[0], "cff": permsgs.get(0, [])})
 
@@ -147,6 +153,10 @@ def run(chk):
     for i, (kind, e, p, ok) in enumerate(cases):
         open(os.path.join(ppkg, "p%04d.go" % i), "w").write(parallel_file(i, kind, e, p))
     rc, out = common.run_cff(mod, "./vpar")
+    nrej = sum(1 for i in range(len(cases)) if not os.path.exists(os.path.join(ppkg, "p%04d_gen.go" % i)))
+    if not chk.violations and (rc != 0) != (nrej > 0):
+        chk.violate("cff exited with status %d although %d of the %d Parallel files were rejected" % (rc, nrej, len(cases)),
+                    {"exit_status": rc, "rejected_files": nrej, "output_tail": out[-1500:]})
     pdist = {"assignable": 0, "not_assignable": 0}
     for i, (kind, e, p, ok) in enumerate(cases):
         acc = os.path.exists(os.path.join(ppkg, "p%04d_gen.go" % i))
@@ -159,6 +169,11 @@ def run(chk):
                 {"kind": kind, "elem": e, "param": p, "assignable": ok, "go_source": parallel_file(i, kind, e, p),
                  "output": [l for l in out.split("\n") if "p%04d" % i in l]})
             break
+    sigcov = None
+    if not chk.violations:
+        sig_common.apply(chk, mod)
+        sigcov = chk.cov.get("correspondence", {}).get("signatures")
+    prev = dict(chk.cov.get("correspondence", {}))
     xc = chk.cov.get("correspondence", {}).get("extraction_cross_check")
     chk.cov["correspondence"] = {
         "flows": "random well-formed typed DAG flows and single-defect mutations, one flow per file; accept/reject and the set of diagnostic classes of the real cff vs ValidateModel.validate; the declarative rules (wf_b) as independent reference",
@@ -167,6 +182,11 @@ def run(chk):
     }
     if xc:
         chk.cov["correspondence"]["extraction_cross_check"] = xc
+    if sigcov:
+        chk.cov["correspondence"]["signatures"] = sigcov
+    for k, v in prev.items():
+        if k.startswith("extraction_cross_check"):
+            chk.cov["correspondence"][k] = v
     chk.cov["rule"] = "distinct = different abstract flow; all non-trivial (>= 1 task)"
     chk.assumptions += ["types are atoms: go/types identity and assignability are Go library code (assignability is an oracle in C14_parallel)",
-                        "signature support (variadic, context position, error position) is not modelled"]
+                        "signatures: types are atoms except context.Context, error and bool; assignability of FallbackWith values and non-function task arguments are not modelled"]
